@@ -78,6 +78,8 @@ type c20Harness struct {
 	writes                                 int
 	crashAt                                int
 	crashes                                int
+	killSites                              []string // where each kill fell: "<write that was not made>@<step> [<transaction status before the step>]"
+	curStep                                string
 	inStep                                 bool
 	history                                []c20Event
 	prev                                   map[uint64][4]string
@@ -94,8 +96,36 @@ func (h *c20Harness) beforeWrite(kind string) {
 		h.crashAt = 0
 		h.crashes++
 		h.trace = append(h.trace, fmt.Sprintf("   !! process killed just before %s (write %d)", kind, h.writes))
+		site := kind + "@" + h.curStep
+		known := false
+		for _, k := range h.killSites {
+			if k == site {
+				known = true
+			}
+		}
+		if !known {
+			h.killSites = append(h.killSites, site)
+		}
 		panic(c20Crash{})
 	}
+}
+
+// killKey attributes a termination failure in a history with kills. Two gaps are a known finding (KF-C20-4): the kill
+// between the configuration write and the transaction status write of the step that starts, or of the step that
+// completes, the apply of a committed change. Any other history is keyed by the places where its kills fell.
+func (h *c20Harness) killKey() string {
+	known := map[string]bool{
+		"tx.UpdateStatus@reconcile transaction[change c=Complete a=Pending rc=Nil ra=Nil]":    true, // the step that starts the apply
+		"tx.UpdateStatus@reconcile transaction[change c=Complete a=InProgress rc=Nil ra=Nil]": true, // the step that completes it
+	}
+	for _, k := range h.killSites {
+		if known[k] {
+			return "termination/after-kill-between-writes/tx-status-write-of-an-apply-step"
+		}
+	}
+	sites := append([]string(nil), h.killSites...)
+	sort.Strings(sites)
+	return "termination/after-kill-between-writes/" + strings.Join(sites, " + ")
 }
 
 func st3(p *v3.TransactionPhaseStatus) string {
@@ -134,6 +164,22 @@ func (h *c20Harness) cfg() *v3.Configuration {
 func (h *c20Harness) step(name string, f func()) {
 	h.trace = append(h.trace, name)
 	h.inStep = true
+	// abstract description of the step for the attribution of a kill: the kind of step and, for a transaction
+	// reconcile, the status of that transaction before the step
+	h.curStep = strings.TrimRight(name, "0123456789 ")
+	if strings.HasPrefix(name, "reconcile transaction ") {
+		var idx uint64
+		fmt.Sscanf(name, "reconcile transaction %d", &idx)
+		for _, t := range h.list() {
+			if uint64(t.ID.Index) == idx {
+				ph := "change"
+				if t.Status.Phase == v3.TransactionStatus_ROLLBACK {
+					ph = "rollback"
+				}
+				h.curStep = fmt.Sprintf("reconcile transaction[%s c=%s a=%s rc=%s ra=%s]", ph, st3(t.Status.Change.Commit), st3(t.Status.Change.Apply), st3(t.Status.Rollback.Commit), st3(t.Status.Rollback.Apply))
+			}
+		}
+	}
 	func() {
 		defer func() {
 			if r := recover(); r != nil {
@@ -313,7 +359,15 @@ func (h *c20Harness) observe() {
 				h.fail("consistency/applied-values", "Consistency: applied revision is %d but applied value of %s is %q, the change set %q", rev, p, got, want)
 				return
 			}
-			if h.conn != "" && cfg.Status.State == v3.ConfigurationStatus_SYNCHRONIZED && cfg.Status.Mastership != nil && cfg.Applied.Term == cfg.Status.Mastership.Term && string(cfg.Status.Mastership.Master) == h.conn {
+			// (an apply that is in progress may already have reached the device - the push and the record of it are two
+			// steps: the device is only compared while no apply is under way)
+			applying := false
+			for _, t := range l {
+				if st3(t.Status.Change.Apply) == "InProgress" || st3(t.Status.Rollback.Apply) == "InProgress" {
+					applying = true
+				}
+			}
+			if !applying && h.conn != "" && cfg.Status.State == v3.ConfigurationStatus_SYNCHRONIZED && cfg.Status.Mastership != nil && cfg.Applied.Term == cfg.Status.Mastership.Term && string(cfg.Status.Mastership.Master) == h.conn {
 				dev := h.w.Devices["t1"].Snapshot()
 				got := ""
 				if le, ok := dev[p]; ok {
@@ -404,8 +458,9 @@ func c20Run(c *fw.Case) {
 	maxChanges := 2 + r.Intn(4)
 	steps := 40 + r.Intn(60)
 	crashy := r.Chance(1, 2)
+	singleKill := r.Chance(1, 2) // one kill only: a termination failure is then attributed to exactly one place
 	for s := 0; s < steps && !h.failed; s++ {
-		if crashy && h.crashAt == 0 && r.Chance(1, 8) {
+		if crashy && h.crashAt == 0 && (!singleKill || h.crashes == 0) && r.Chance(1, 8) {
 			h.crashAt = h.writes + 1 + r.Intn(4)
 		}
 		l := h.list()
@@ -538,7 +593,7 @@ func c20Run(c *fw.Case) {
 			if t.Status.Phase == v3.TransactionStatus_CHANGE && !(done[cc] && done[ca]) {
 				key := "termination/change"
 				if h.crashes > 0 {
-					key = "termination/after-kill-between-writes"
+					key = h.killKey()
 				}
 				for _, e := range h.history {
 					if e.Phase == "Rollback" && e.Event == "Commit" && e.Status == "Complete" && e.Index != uint64(t.ID.Index) && cc == "Pending" {
@@ -553,7 +608,7 @@ func c20Run(c *fw.Case) {
 			if t.Status.Phase == v3.TransactionStatus_ROLLBACK && !(done[rc] && done[ra]) {
 				key := "termination/rollback"
 				if h.crashes > 0 {
-					key = "termination/after-kill-between-writes"
+					key = h.killKey()
 				}
 				for _, e := range h.history {
 					if e.Phase == "Change" && e.Event == "Commit" && e.Status == "Failed" && e.Index > uint64(t.ID.Index) {
